@@ -753,7 +753,7 @@ func Run(ctx *core.Ctx) {
 	if err != nil {
 		ctx.Fatal("%v", err)
 	}
-	nCfg := ctx.Pick(72, 6000)
+	nCfg := ctx.Pick(144, 6000)
 	moves := ctx.Pick(30, 100)
 	workers := ctx.Pick(8, 12)
 	var wg sync.WaitGroup
